@@ -24,7 +24,7 @@ def gen_ctl(seed, tier):
 
 
 def nontrivial(case, model_obs):
-    if case.engine == "tq":
+    if case.engine.startswith("t"):
         return qc.ctl_nontrivial(case, model_obs)
     parked, completed, values = set(), 0, 0
     for l in model_obs:
